@@ -6,6 +6,7 @@ Executable specification of the C07 statement, evaluated on implementation outpu
                 restriction to that side of a merge of the full dendrogram, at the same height.
 -/
 import SkNet.Spec.Dendro
+import SkNet.Model.Hierarchy
 
 namespace SkNet.Hier
 open SkNet SkNet.Dendro
@@ -61,6 +62,29 @@ def reorderSpec (n : Nat) (D R : Dendro α) : Except String Unit := do
   need (same R D) "a-row-of-the-result-is-not-a-merge-of-the-input"
   need (same D R) "a-merge-of-the-input-is-missing"
 
+end
+
+
+/-! ### trees (nested lists of the Louvain hierarchies) -/
+
+mutual
+/-- the leaves of a tree, left to right -/
+def tleaves : Tree → List Nat
+  | .leaf k => [k]
+  | .node ts => tleavesL ts
+def tleavesL : List Tree → List Nat
+  | [] => []
+  | t :: ts => tleaves t ++ tleavesL ts
+end
+
+mutual
+/-- every inner list has at least two elements (what both Louvain builders produce below the top) -/
+def WF : Tree → Prop
+  | .leaf _ => True
+  | .node ts => 2 ≤ ts.length ∧ WFL ts
+def WFL : List Tree → Prop
+  | [] => True
+  | t :: ts => WF t ∧ WFL ts
 end
 
 end SkNet.Hier
